@@ -479,6 +479,136 @@ def window_statistic_pairs(chk, work, base):
                mismatches=bad[0], branches=dict(branches, skipped=skipped))
 
 
+def circumstance_pairs(chk, work, base):
+    """Causality under the circumstances of harness/generic.py (through u1_util). One pair of rural files - identical up
+    to a cut hour, EPW missing markers at and just before the cut hour and in the first hour IN BOTH, every modelled
+    column changed after the cut in one of them - is run plainly, while every reachable object is rendered at every
+    stage, with DEBUG logging, in a fresh `python -O` interpreter, through both command-line routes (also `python -O
+    -m uwg`); the unperturbed file also next to another model and from the caller's own dictionary. On EVERY route the
+    two runs must agree bit for bit up to the cut hour, and every run on the unperturbed file must equal the plain one."""
+    import s1_util as S
+    import u1_util as U1
+    rng = chk.rng
+    thorough = chk.tier == 'thorough'
+    bad, total, branches = [0], 0, {}
+    for rep in range(1 if not thorough else 3):
+        import t1_util as T1
+        src = None
+        for attempt in range(4):
+            month, day = rng.choice([(1, 1), (4, 11), (8, 20), (10, 3), (3, 30), (6, 29)])
+            first = 8 + 24 * S.doy0(month, day)
+            h = rng.randint(4, 18)
+            # the gap at the cut: horizontal infrared (effective at every hour) in the even members, direct normal /
+            # diffuse in the odd ones; a single marker of the other kind three hours earlier and one in the first hour
+            c2 = rng.choice([14, 15])
+            col, single = (12, c2) if rep % 2 == 0 else (c2, 12)
+            cand = S.copy_rows(base)
+            # values a well-meaning "repair" step could be tempted to touch, in both files: RH 100..110 and fractional,
+            # calm and 10 / 20 m/s winds, pressure with a thousands separator or an exponent, other spellings
+            T1.boundary_window(cand, first, 24, shift=rng.randint(0, 23), table=T1.MILD, every=3)
+            marks = {'column %d at the cut hour and the hour before' % col: [first + h - 1, first + h],
+                     'column %d three hours before the cut' % single: [first + h - 3],
+                     'column %d in the first hour' % (15 if col != 15 else 12): [first]}
+            cand[first + h][col] = cand[first + h - 1][col] = S.MISSING[col]
+            cand[first + h - 3][single] = S.MISSING[single]
+            cand[first][15 if col != 15 else 12] = '9999'
+            probe = U1.execute(U1.spec(S.save_epw(cand, os.path.join(work, 'circ_probe.epw')),
+                                       attrs=[('month', month), ('day', day), ('nday', 1), ('dtsim', 300)],
+                                       outdir=os.path.join(work, 'probe'), outname='p.epw'), keep_model=False)
+            if not probe.error:
+                src = cand
+                break
+            chk.notes.append('circumstance pair: a day with these markers trips the model\'s own fail-stop (%s), another '
+                             'day is drawn' % probe.error.split('\n')[0][:60])
+        if src is None:
+            continue
+        pert = S.copy_rows(src)
+        for i in range(first + h + 1, first + 48):
+            for c in MODELLED:
+                pert[i][c] = perturb_value(rng, c, pert[i][c])
+        if pert[first + h + 1][col] == src[first + h + 1][col]:     # the hour after the gap must differ in the gap's column
+            pert[first + h + 1][col] = '%d' % (int(float(src[first + h + 1][col])) + 90)
+        d = os.path.join(work, 'circ%d' % rep)
+        os.makedirs(d)
+        pa = S.save_epw(src, os.path.join(d, 'rural_a.epw'))
+        pb = S.save_epw(pert, os.path.join(d, 'rural_b.epw'))
+        attrs = [('month', month), ('day', day), ('nday', 1), ('dtsim', 300)]
+        spa = U1.spec(pa, attrs=attrs, outdir=os.path.join(d, 'a'), outname='m.epw')
+        spb = U1.spec(pb, attrs=attrs, outdir=os.path.join(d, 'b'), outname='m.epw')
+        other = U1.spec(U.rp(U.EPW_SGP), attrs=[('month', (month % 12) + 1), ('day', 5), ('nday', 1), ('dtsim', 300),
+                                                ('bldheight', 30)], outname='other.epw',
+                        label='another model, shipped file, other window')
+        # (one after the other: the in-process members change process-wide state - logging level, sys.stdout)
+        ra = U1.run_circumstances(d, spa, other, tag='a%d' % rep)
+        rb = U1.run_circumstances(d, spb, None, members=[m_ for m_ in U1.ALL if m_ not in ('neighbours', 'caller data')],
+                                  tag='b%d' % rep)
+        plain = ra[0][1]
+        if plain.error:
+            chk.notes.append('circumstance pair %s h=%d skipped: the plain run raised %s' % (attrs, h, plain.error[:80]))
+            continue
+        byname = {nm: r for nm, r, _ in rb}
+        if byname['plain'].error:
+            # the changed later rows trip the model's own fail-stop: this file has no urban hours to compare with
+            chk.notes.append('circumstance pair %s h=%d: the run on the perturbed file raised %s; only the comparisons with '
+                             'the plain run remain' % (attrs, h, byname['plain'].error.split('\n')[0][:60]))
+            byname = {}
+        case0 = {'kind': 'after-cut-with-missing-markers under a circumstance', 'params': dict(attrs), 'cut_hour': h,
+                 'first_row': first, 'missing markers in both files (file rows)': marks,
+                 'how': 'harness/props/c03.py circumstance_pairs; harness/u1_util.py run_circumstances'}
+        # the same file simulated one more day while somebody looks: day 1 must not change
+        longer = U1.execute(U1.variant(spa, attrs=[list(a) for a in attrs[:2]] + [['nday', 2], ['dtsim', 300]],
+                                       outname='longer_m.epw', observe=U1.STAGES), keep_model=False)
+        byname['observed, one more day'] = longer
+        for nm, r, msgs in ra + [('observed, one more day', None, [])]:
+            total += 1
+            branches[nm] = branches.get(nm, 0) + 1
+            case = dict(case0, circumstance=nm)
+            if nm == 'observed, one more day':
+                r, twin, upto, what = [x for x in ra if x[0] == 'observed'][0][1], longer, 24, \
+                    'one more day simulated from the same start'
+            else:
+                twin, upto, what = byname.get(nm), h + 1, 'rural rows after the cut hour changed'
+            case['route'] = r.route
+            msg = None
+            if msgs:
+                msg = (msgs[0], None, 'no trace')
+            elif r.error or (twin is not None and twin.error):
+                msg = ('the run did not complete', r.error or twin.error, 'the plain run completes')
+            elif twin is not None:
+                dr = U1.diff_records(r.records, twin.records, upto=upto) if r.records is not None and \
+                    twin.records is not None else None
+                dfl = U1.diff_files(r.file, twin.file, first=first, upto=upto, cols=(6, 7, 8, 21))
+                if dr:
+                    msg = ('%s: hourly records differ at %s' % (what, dr[0]), [dr[1], dr[2]],
+                           'records for hours <= %d bit-identical' % (upto - 1))
+                elif dfl:
+                    msg = ('%s: written cells 6,7,8,21 differ at %s' % (what, dfl[0]), [dfl[1], dfl[2]],
+                           'written rows for hours <= %d identical' % (upto - 1))
+            if not msg and nm not in ('plain', 'observed, one more day'):
+                ap = U1.against_plain(U1.reference_for(ra, nm), r)
+                msg = ap and ('differs from the plain run on the same file: ' + ap[0], ap[1], ap[2])
+            if msg:
+                bad[0] += 1
+                if bad[0] <= 3:
+                    chk.violation('impl-violation', 'causality under a circumstance that is not an input (%s): %s' % (nm, msg[0]),
+                                  case=case, observed=msg[1], expected=msg[2])
+    chk.direct('paired-runs under circumstances (observers, DEBUG, python -O, command line, neighbours, caller data)',
+               total, total,
+               'a pair of copies of the Singapore file, identical up to a random cut hour h, with the EPW missing marker in one '
+               'radiation column at hours h-1 and h (horizontal infrared; thorough: also direct normal / diffuse), in another one at '
+               'h-3 and in the first hour of the window, and with every third '
+               'modelled cell of the day at / beyond the EPW limits or in another spelling (t1_util.MILD) - in BOTH files -, every '
+               'modelled column changed after h in one of them; 1 day, dt 300. The pair is run (1) plainly, (2) while repr / '
+               'str / ToString of the model and of every reachable uwg object is taken after construction, after generate(), '
+               'every 41st step of simulate(), after simulate() and after write_epw(), (3) with DEBUG logging, (4) in a fresh '
+               '`python -O` interpreter, (5) through `python -m uwg simulate model`, `simulate param`, `python -O -m uwg '
+               'simulate model` and a JSON with whole numbers typed as ints; the unperturbed file also (6) interleaved with another model and (7) from the caller\'s own '
+               'dictionary edited after generate(); and (8) simulated one more day while being looked at. On every route: '
+               'hourly records (where the route shows them) and written cells 6,7,8,21 of hours <= h (8: of the whole first '
+               'day) bit-identical between the two runs, and records / bytes of the unperturbed file equal to the plain run',
+               mismatches=bad[0], branches=branches)
+
+
 def run(chk):
     from props import step
     chk.proof(MODULE, THEOREMS + step.THEOREMS, extra_modules=[step.MODULE])
@@ -521,6 +651,8 @@ def run(chk):
             plan.append((k, kind, rng.choice([(1, 1), (3, 30), (6, 29), (12, 27), (9, 14)]), rng.choice([2, 3]),
                          dts[(k * len(kinds) + kinds.index(kind)) % len(dts)], None))
     for (k, kind, (month, day), nday, dt, fixed_h) in plan:
+        if chk.tier == 'quick' and dt <= 100 and k >= 0:
+            nday = 1          # (quick tier: the members with >= 864 steps a day run one day; the thorough tier keeps 2-3 days)
         if True:
             attrs = dict(month=month, day=day, nday=nday, dtsim=dt)
             julian0 = [0, 31, 59, 90, 120, 151, 181, 212, 243, 273, 304, 334][month - 1] + day - 1
@@ -584,7 +716,7 @@ def run(chk):
                 rows[5][1] = 'changed, comment'
             elif kind == 'longer-window':
                 ref_path = base_path
-                other_attrs['nday'] = nday + rng.choice([1, 2])
+                other_attrs['nday'] = nday + (rng.choice([1, 2]) if not (chk.tier == 'quick' and dt <= 100) else 1)
             pert = os.path.join(work, 'pert_%d_%s.epw' % (k, kind[:5]))
             save_epw(rows, pert)
             try:
@@ -629,6 +761,7 @@ def run(chk):
                mismatches=bad, branches=branches)
     variant_pairs(chk, work, base)
     window_statistic_pairs(chk, work, base)
+    circumstance_pairs(chk, work, base)
     # composition C: the physics of one step as one Lean function, tied exactly to the real loop body
     step.run_step(chk)
     chk.assumptions.append('the theorems hold for ANY physics that is a function of (state, current forcing row, '
